@@ -125,15 +125,15 @@ def _copy(src, dst):
 
 
 def prepare_sync(engine):
-    """Single-file shadows of radicle/src/node/sync.rs and sync/announce.rs inside a shim crate that
+    """Single-file shadows of radicle/src/node/sync.rs, sync/announce.rs and sync/fetch.rs inside a shim crate that
     provides the few names they import (NodeId as a 1-byte ordered id, Doc/Visibility for
     PrivateNetwork::private_repo)."""
     dst = os.path.join(SHADOW, "sync")
     base = os.path.join(REPO, "crates", "radicle", "src", "node")
-    # sync.rs: collections rewrite + drop the `fetch` submodule (it needs FetchResults / Address)
-    text, _, _ = rewrite_collections(open(os.path.join(base, "sync.rs")).read(), "sync.rs",
-                                     extra_rules=[(r"(?m)^pub mod fetch;\n", ""), (r"(?m)^pub use fetch::[^\n]*\n", "")])
+    text, _, _ = rewrite_collections(open(os.path.join(base, "sync.rs")).read(), "sync.rs")
     write_if_changed(os.path.join(dst, "src", "node", "sync.rs"), text)
+    text, _, _ = rewrite_collections(open(os.path.join(base, "sync", "fetch.rs")).read(), "fetch.rs")
+    write_if_changed(os.path.join(dst, "src", "node", "sync", "fetch.rs"), text)
     text, _, _ = rewrite_collections(open(os.path.join(base, "sync", "announce.rs")).read(), "announce.rs")
     write_if_changed(os.path.join(dst, "src", "node", "sync", "announce.rs"), text)
     _copy(os.path.join(VERIF, "harness", "shadow", "vbits.rs"), os.path.join(dst, "src", "vcoll.rs"))
